@@ -29,6 +29,9 @@ def _run_one(spec):
             u.compile_native()
         out['times'] = dict(u.times)
         ctx = Ctx(u, spec, out)
+        skipfile = os.path.join(_WORK, spec.name + '.skip')
+        ctx.skip = set(l.rstrip('\n') for l in open(skipfile)) if os.path.exists(skipfile) else set()
+        core.start_watchdog(skipfile)
         _WORKER(ctx)
         out['times']['total'] = time.time() - t0
     except H.BuildError as e:
@@ -45,7 +48,7 @@ def run_units(specs, worker, work, jobs=None):
     _WORK = work
     H.include_dir(work)
     jobs = jobs or min(16, os.cpu_count() or 4)
-    if len(specs) == 1 or jobs == 1:
+    if jobs == 1:
         return [_run_one(s) for s in specs]
     from concurrent.futures import ProcessPoolExecutor
     from concurrent.futures.process import BrokenProcessPool
@@ -54,7 +57,7 @@ def run_units(specs, worker, work, jobs=None):
     pending = list(range(len(specs)))
     # a worker that dies (e.g. the natively compiled real code aborts) breaks the pool: the units that did not
     # finish are retried one process each so that only the guilty unit is lost
-    for attempt in range(2):
+    for attempt in range(4):
         if not pending:
             break
         with ProcessPoolExecutor(max_workers=min(jobs, len(pending)), mp_context=ctx) as pool:
@@ -570,6 +573,12 @@ def lift_input_casts(t, only_ty=None):
 
 def guarded(ctx, ident, fn):
     """run one obligation group; an internal error makes it inconclusive instead of killing the unit"""
+    core.WATCH['group'] = str(ident)
+    if str(ident) in getattr(ctx, 'skip', ()):
+        o = ctx.ob(str(ident) + ' [solver]', 'solver-hang', '-', 'obligation group %s' % ident)
+        o.verdict = 'inconclusive'
+        o.reason = 'solver did not return within the hard limit (6 x timeout + 45 s); the worker was killed and the unit re-run without this group'
+        return
     try:
         fn()
     except Exception as e:
